@@ -7,7 +7,7 @@ except ImportError:
     numpy = None
 
 
-def pysparkling_poisson(lambda_):
+def pysparkling_poisson(lambda_, rng=random):
     if lambda_ == 0.0:
         return 0
 
@@ -15,48 +15,60 @@ def pysparkling_poisson(lambda_):
     exp_neg_lambda = math.exp(-lambda_)
     prod = 1.0
     while True:
-        prod *= random.random()
+        prod *= rng.random()
         if prod > exp_neg_lambda:
             n += 1
         else:
             return n
 
 
-def poisson(lambda_):
+def poisson(lambda_, rng=random):
     if numpy is not None:
-        return numpy.random.poisson(lambda_)
-    return pysparkling_poisson(lambda_)
+        return getattr(rng, "numpy_random", numpy.random).poisson(lambda_)
+    return pysparkling_poisson(lambda_, rng)
+
+
+class TaskRandom(random.Random):
+    """Random number generator owned by one sampling task.
+
+    Sampled partitions are computed lazily, so two samplers (nested, or running
+    in concurrent tasks) must not draw from a shared generator.
+    """
+    def __init__(self, seed):
+        super().__init__(seed)
+        if numpy is not None:
+            self.numpy_random = numpy.random.RandomState(seed)
 
 
 class BernoulliSampler:
     def __init__(self, expectation):
         self.expectation = expectation
 
-    def __call__(self, sample):
-        return 1 if random.random() < self.expectation else 0
+    def __call__(self, sample, rng=random):
+        return 1 if rng.random() < self.expectation else 0
 
 
 class PoissonSampler:
     def __init__(self, expectation):
         self.expectation = expectation
 
-    def __call__(self, sample):
-        return poisson(self.expectation)
+    def __call__(self, sample, rng=random):
+        return poisson(self.expectation, rng)
 
 
 class BernoulliSamplerPerKey:
     def __init__(self, expectations):
         self.expectations = expectations
 
-    def __call__(self, sample):
+    def __call__(self, sample, rng=random):
         key = sample[0]
-        return 1 if random.random() < self.expectations.get(key, 0.0) else 0
+        return 1 if rng.random() < self.expectations.get(key, 0.0) else 0
 
 
 class PoissonSamplerPerKey:
     def __init__(self, expectations):
         self.expectations = expectations
 
-    def __call__(self, sample):
+    def __call__(self, sample, rng=random):
         key = sample[0]
-        return poisson(self.expectations.get(key, 0.0))
+        return poisson(self.expectations.get(key, 0.0), rng)
